@@ -519,6 +519,22 @@ func (u *Unit) evalCall(env *Env, e *Expr) Val {
 		return &Scalar{T: Ite(Cmp("<=", a, b), a, b), Typ: types.Typ[types.Int]}
 	case "real":
 		return &Scalar{T: ToReal(u.evalTerm(env, args[0])), Typ: types.Typ[types.Float64]}
+	case "eachDuration":
+		// eachDuration(opts, d): every time.Duration among the (statically known) elements of the option list equals d;
+		// false when the elements are not known
+		lst := u.eval(env, args[0])
+		d := u.evalTerm(env, args[1])
+		elems, guards, ok := u.knownElems(env.st, lst)
+		if !ok {
+			return &Scalar{T: TFalse, Typ: types.Typ[types.Bool]}
+		}
+		durID := u.eng.typeIDName("time.Duration")
+		cs := []Term{TTrue}
+		for i, el := range elems {
+			t := u.termOf(el)
+			cs = append(cs, Implies(And(guards[i], Eq(App(SInt, "typeof", t), durID)), Eq(App(SInt, "pay", t), d)))
+		}
+		return &Scalar{T: And(cs...), Typ: types.Typ[types.Bool]}
 	case "Includes":
 		// Includes(whole, part): see includesTerm
 		return &Scalar{T: u.includesTerm(u.evalTerm(env, args[0]), u.evalTerm(env, args[1])), Typ: types.Typ[types.Bool]}
